@@ -9,6 +9,7 @@ import (
 	"sort"
 	"strings"
 	"time"
+	"unicode"
 
 	"github.com/cespare/xxhash"
 	"golang.org/x/tools/go/ssa"
@@ -370,12 +371,10 @@ func init() {
 	reg("(*strings.Builder).WriteRune", func(ex *Exec, fn *ssa.Function, a []Value) Value {
 		r := a[1].(*term.T)
 		if !r.IsConst() {
-			if !ex.Branch(term.Ult(r, term.Const(32, 0x80))) {
-				ex.unsupported("WriteRune of symbolic non-ASCII rune")
-			}
-			one := &ByteArr{size: u64(1), cells: []*term.T{term.Extract(r, 7, 0)}}
-			ex.env.side[a[0].(Ptr).cell] = ex.appendSlice(sb(ex, a[0]), BSlice{arr: one, off: zero64, len: u64(1), cap: u64(1)}, nil)
-			return Tuple{i64(1), Iface{}}
+			cells := ex.encodeRuneSym(r)
+			n := u64(uint64(len(cells)))
+			ex.env.side[a[0].(Ptr).cell] = ex.appendSlice(sb(ex, a[0]), BSlice{arr: &ByteArr{size: n, cells: cells}, off: zero64, len: n, cap: n}, nil)
+			return Tuple{i64(int64(len(cells))), Iface{}}
 		}
 		s := string(rune(r.Signed()))
 		ex.env.side[a[0].(Ptr).cell] = ex.appendSlice(sb(ex, a[0]), bsliceOf([]byte(s)), nil)
@@ -996,4 +995,54 @@ func splitTok(t *term.T) (*term.T, *term.T) {
 		}
 	}
 	return nil, nil
+}
+
+// ---------------------------------------------------------------- unicode predicates
+// The predicate tables of package unicode are package-level data built by initialisers the engine does not run.
+// For a symbolic rune the predicate is encoded exactly as a disjunction of intervals computed with the real
+// function over the rune's interval (at most 0x10FFFF+1 values; runes outside [0, 0x10FFFF] are false).
+func init() {
+	preds := map[string]func(rune) bool{
+		"IsLetter": unicode.IsLetter, "IsDigit": unicode.IsDigit, "IsNumber": unicode.IsNumber, "IsSpace": unicode.IsSpace,
+		"IsUpper": unicode.IsUpper, "IsLower": unicode.IsLower, "IsPunct": unicode.IsPunct, "IsControl": unicode.IsControl,
+		"IsGraphic": unicode.IsGraphic, "IsPrint": unicode.IsPrint, "IsSymbol": unicode.IsSymbol, "IsMark": unicode.IsMark, "IsTitle": unicode.IsTitle,
+	}
+	for name, f := range preds {
+		f := f
+		intrinsics["unicode."+name] = func(ex *Exec, fn *ssa.Function, a []Value) Value {
+			x := a[0].(*term.T) // int32
+			if x.IsConst() {
+				return term.Bool(f(rune(int32(x.C))))
+			}
+			lo, hi := x.Range()
+			if hi > 0x10FFFF {
+				// negative or out-of-range runes: split them off
+				if !ex.Branch(term.Ule(x, term.Const(x.W, 0x10FFFF))) {
+					return term.False
+				}
+				lo, hi = x.Range()
+				if hi > 0x10FFFF {
+					hi = 0x10FFFF
+				}
+			}
+			r := term.False
+			for v := lo; v <= hi; {
+				if !f(rune(v)) {
+					v++
+					continue
+				}
+				e := v
+				for e+1 <= hi && f(rune(e+1)) {
+					e++
+				}
+				iv := term.BAnd(term.Uge(x, term.Const(x.W, v)), term.Ule(x, term.Const(x.W, e)))
+				if e == v {
+					iv = term.Eq(x, term.Const(x.W, v))
+				}
+				r = term.BOr(r, iv)
+				v = e + 1
+			}
+			return r
+		}
+	}
 }
